@@ -7,9 +7,7 @@ for id in "$@"; do
   tools/seed_verify.sh /tmp/wt/$id.seed $id-$L 2>&1 | tail -1
 done
 for id in "$@"; do
-  [ -d seeded/$id-$L ] && (tools/seed_run_wt.sh $id-$L quick $id > /tmp/sr_$id$L.log 2>&1 &)
+  [ -d seeded/$id-$L ] && tools/seed_run_wt.sh $id-$L quick $id > /tmp/sr_$id$L.log 2>&1 &
 done
 wait
-sleep 5
-while pgrep -f "seed_run_w[t].sh" > /dev/null; do sleep 5; done
 for id in "$@"; do grep -h "^SEED\|violation key" /tmp/sr_$id$L.log | cut -c1-330 | head -3; done
